@@ -177,6 +177,11 @@ def shard_bare(arg):
     for s in specs:
         for an, kn in (('args', 'kwargs'), ('p', 'k'), ('args', 'k')):
             check_bare(s, an, kn, st)
+            # ... also when the inner signature has named parameters spelled like the bare outer's stars (which are not in
+            # the result: the names are free)
+            ren = tuple(p._replace(name={'x': an, 'y': kn}.get(p.name, p.name)) for p in s)
+            if ren != s and len(set(p.name for p in ren)) == len(ren):
+                check_bare(ren, an, kn, st)
     return st
 
 
